@@ -1,0 +1,20 @@
+//go:build verif
+
+/*
+Copyright 2023- IBM Inc. All Rights Reserved.
+
+SPDX-License-Identifier: Apache-2.0
+*/
+
+package connlist
+
+import "github.com/np-guard/netpol-analyzer/pkg/netpol/internal/common"
+
+// verification-only exports (build tag verif): make the internal connection-set algebra reachable
+// from an external monitoring harness without copying or wrapping it
+
+type VerifConnectionSet = common.ConnectionSet
+type VerifPortSet = common.PortSet
+
+func VerifMakeConnectionSet(all bool) *common.ConnectionSet { return common.MakeConnectionSet(all) }
+func VerifMakePortSet(all bool) *common.PortSet             { return common.MakePortSet(all) }
